@@ -30,7 +30,13 @@ def v1_guard_in(r: R, qual: str, nodes_param: str):
     out = []
     for g in r.raise_guards(ctx, ("ValueError",)):
         t = g[0].ast
-        for c in ast.walk(t):
+        exprs = [t]
+        # a guard through a local (`ok = self.valid(nodes); if not ok: raise`) counts when the local has one definition
+        for nm in {x.id for x in ast.walk(t) if isinstance(x, ast.Name)}:
+            defs = [a for a in ast.walk(ctx.fi.node) if isinstance(a, ast.Assign) and any(isinstance(tt, ast.Name) and tt.id == nm for tt in a.targets)]
+            if len(defs) == 1 and nm not in ctx.fi.params:
+                exprs.append(defs[0].value)
+        for c in (y for e_ in exprs for y in ast.walk(e_)):
             if isinstance(c, ast.Call) and isinstance(c.func, ast.Attribute) and c.func.attr == "valid" and c.args:
                 recs = [cr for cr in ctx.calls if cr.node is c and cr.kind == "call" and any(f.qual.endswith(".valid") for f in cr.callees)]
                 recv = ctx.val(c.func.value)
@@ -38,6 +44,11 @@ def v1_guard_in(r: R, qual: str, nodes_param: str):
                 if recs and recv is not None and any(root_of(o) == 0 for o in recv.pts) and arg is not None and (pi is None or ("P", pi) in arg.all_dep()):
                     out.append(g)
     return out
+
+
+def _is_valid_probe(st) -> bool:
+    """`ok = self.valid(nodes)`: computes the guard condition, not a query result"""
+    return isinstance(st, ast.Assign) and isinstance(st.value, ast.Call) and isinstance(st.value.func, ast.Attribute) and st.value.func.attr == "valid"
 
 
 def v1(r: R, chk, prop: str = "C03"):
@@ -196,7 +207,7 @@ def run(m, chk):
         q = f"{IKV}.{name}"
         c = r.root(q)
         guards = v1_guard_in(r, q, "nodes")
-        work = [n for n in r.stmt_nodes(c) if n.kind in ("stmt", "for") and not isinstance(n.ast, ast.Raise) and not (isinstance(n.ast, ast.Expr) and isinstance(n.ast.value, ast.Constant)) and not any(n is g[2] for g in guards)]
+        work = [n for n in r.stmt_nodes(c) if n.kind in ("stmt", "for") and not isinstance(n.ast, ast.Raise) and not (isinstance(n.ast, ast.Expr) and isinstance(n.ast.value, ast.Constant)) and not any(n is g[2] for g in guards) and not _is_valid_probe(n.ast)]
         chk.floor("GATE-VALID", f"statements of {q}", len(work), 1)
         bad = [n for n in work if not any(r.guard_dominates(c, g, n.id) for g in guards)]
         ok = not bad
